@@ -9,7 +9,8 @@ import RtcVerif.Model.C04Goals
 * `hardFromEps` — `_gp_goal_hard_constraint` / `__goal_hard_constraint`: bounds per step of the
   retained constraint `goal.function/nominal` from the achieved violation (target goals) or
   the achieved function value (minimisation goals); critical goals with `eps = 0`.
-  (`violation_tolerance` is left at its default `inf`: the branch it guards is not modelled.)
+  (the `violation_tolerance` branch of the multi-pass conversion is in `Model/C02Loop.lean`:
+  `hardStep`; critical goals have `eps = 0` and never take it for a tolerance ≥ 0.)
 * the store itself (function key ↦ bounds) and the priority loop are in `Model/C02Loop.lean`.
 
 Core Lean only.
@@ -57,6 +58,9 @@ structure HOpts where
   constraintRelaxation : Rat := 0
   equalityThreshold : Rat := 1 / 100000000
   fixMinimizedValues : Bool := false
+  /-- `violation_tolerance` (`none` = the default `inf`): a target goal whose achieved violation
+      exceeds it has its achieved function value fixed (multi-pass loop, `Model/C02Loop.lean`) -/
+  violationTolerance : Option Rat := none
 deriving Repr
 
 /-- the number an extended value holds (`0` when it holds none) -/
